@@ -36,6 +36,8 @@ _WHY = {
     11: "relational: CDF(x - 1e-9|x|) >= y: the returned x is not the smallest point with CDF >= y; CDF(x - tol) below",
     12: "infinite result for 0 < y < 1: expected exactly when the bracket expansion overflows (quantile beyond 2^1023 / at or below -2^1023); [neg, expected quantile or CDF at the last finite probe]",
     13: "not non-decreasing in y: the results at the two level indices below are in the wrong order",
+    14: "the distribution's Bounds / CDF (2) or the constructors stats.InvCDF / stats.Rand (3) panicked",
+    15: "the distribution's own Rand method is not a deterministic function of the source: two equally seeded sources gave different draws (or a draw panicked): status, bits, status, bits",
 }
 
 
@@ -93,6 +95,23 @@ def describe(line, verdict, case):
                           "draw != InvCDF(dist)(y) bit for bit (status, draw bits, inv bits)",
                           "InvCDF(dist)(y) itself is wrong: " + (_WHY.get(diag[0], "?") if diag else "?")][pos] if 0 <= pos <= 4 else "?"
             out["diag"] = diag
+        elif op in (9, 10):
+            kinds = ["TDist", "UDist", "KDE", "BinomialDist", "HypergeometicDist", "NormalDist", "DeltaDist", "harness geometric (DiscreteDist)", "harness Poisson (DiscreteDist)", "harness atom + exponential tail", "harness power law"]
+            out["distribution"] = kinds[line[2]] if 0 <= line[2] < len(kinds) else line[2]
+            out["own_rand_method"] = bool(line[4] & 2)
+            if diag and diag[0] == 14:
+                out["why"] = _WHY[14]
+            elif op == 9:
+                out["why"] = _WHY[15]
+                out["draws"] = [_f(diag[2]), _f(diag[4])] if len(diag) >= 5 else diag
+            else:
+                out["why"] = ["stats.Rand(d) (2) or the distribution's CDF at a draw (3) panicked",
+                              "Kolmogorov-Smirnov distance of the draws of stats.Rand(d) to d's own CDF (computed by the comparator from the sorted draws and the reported cdf values) exceeds the DKW bound for false-alarm probability 1e-9",
+                              "a draw or a cdf value is not a finite number, or the draws are not sorted"][pos] if 0 <= pos <= 2 else "?"
+                if pos == 1 and len(diag) >= 2:
+                    out["D"] = _q(diag[0], diag[1])
+                    n = line[13] if len(line) > 13 else None
+                    out["draws"] = n
         elif op in (6, 7):
             kinds = ["TDist", "UDist", "KDE", "BinomialDist", "HypergeometicDist", "NormalDist", "DeltaDist", "harness geometric (DiscreteDist)", "harness Poisson (DiscreteDist)", "harness atom + exponential tail", "harness power law"]
             out["distribution"] = kinds[line[2]] if 0 <= line[2] < len(kinds) else line[2]
@@ -107,7 +126,9 @@ def describe(line, verdict, case):
                 out["values"] = [_f(b) for b in diag[1:]]
             else:
                 out["why"] = _WHY.get(diag[0], "?") if diag else "?"
-                if diag and diag[0] == 8 and len(diag) >= 5:
+                if diag and diag[0] == 14:
+                    pass
+                elif diag and diag[0] == 8 and len(diag) >= 5:
                     out["why"] = ("InvCDF(d)(y) is not bit-identical to " + ("the distribution's own method" if line[4] & 1 else
                                   "the generic algorithm run through a bare CDF/Bounds wrapper") + " (status, result bits, reference status/bits)")
                     out["result"], out["reference"] = _f(diag[2]), _f(diag[3])
@@ -116,7 +137,7 @@ def describe(line, verdict, case):
                 elif diag and diag[0] == 3:
                     out["expected"] = _xdiag(diag[1:])
                 if op == 6:
-                    base = 11
+                    base = 12
                     items = line[base + 1:]
                     if 0 <= pos and 10 * pos + 10 <= len(items):
                         it = items[10 * pos: 10 * pos + 10]
